@@ -74,7 +74,15 @@ def check_one(ctx, cfg, kind, rng, drv, seed):
     pre = rng.choice([[], ["getTimes"], ["readMeta"], ["getCounts", "getTimes"]])
     h = pre + [trig, "readMeta", "dataset", "getTimes"]
     r = s.reader()
-    outs = [acc.perform(r, o) for o in h]
+    try:
+        outs = [acc.perform(r, o) for o in h]
+    except IndexError as e:
+        if "No PRT 0-index" in str(e):
+            # the thermal calibration needs a PRT reset line among the pass's line numbers (C05's subject); a pass
+            # without one cannot be calibrated at all and is not judged here
+            ctx.branches["not-calibratable(no PRT reset line): no verdict"] += 1
+            return
+        raise
     final = list(outs[-1][1])
     want = acc.meta_oracle(final, s.nums)
     payload = {"fmt": cfg.fmt, "start": cfg.start, "n": cfg.n, "nums": cfg.nums, "kw": cfg.kw, "cfg": list(cfg.cfg),
